@@ -38,6 +38,7 @@ type Contract struct {
 	Extern    bool // trusted: never verified, only used at call sites
 	Pure      bool
 	Inline    bool
+	Getter    bool // result is a function of receiver and arguments only; no effects (trusted)
 	Safe      bool
 	Requires  []*Clause
 	Ensures   []*Clause
@@ -57,6 +58,7 @@ type SpecFunc struct {
 	Params []SParam
 	Result string
 	Body   SExpr // nil = uninterpreted ghost function
+	PkgPath string // import path of the package whose contract file declares it
 	File   string
 	Line   int
 }
@@ -378,7 +380,7 @@ func (p *parser) postfix(e SExpr) SExpr {
 // contract file parsing
 
 var clauseKeywords = map[string]bool{"requires": true, "ensures": true, "modifies": true, "loop": true, "at": true,
-	"safe": true, "pure": true, "inline": true, "end": true, "let": true, "props": true, "trusted": true}
+	"safe": true, "pure": true, "inline": true, "getter": true, "end": true, "let": true, "props": true, "trusted": true}
 
 // parseContractFile reads every //@ line of a file.
 func (p *Prog) parseContractFile(file string) error {
@@ -477,6 +479,9 @@ func (p *Prog) parseContractFile(file string) error {
 				return fail(l.n, "%v", err)
 			}
 			sf.File, sf.Line = short, l.n
+			if strings.HasSuffix(short, ".go") {
+				sf.PkgPath = repoMod + "/" + filepath.Dir(short)
+			}
 			if fields[0] == "ghost" && sf.Body != nil {
 				return fail(l.n, "ghost func must not have a body")
 			}
@@ -588,6 +593,9 @@ func (ct *Contract) addClause(txt, file string, line int) error {
 		ct.HasMod = true
 	case "inline":
 		ct.Inline = true
+	case "getter":
+		ct.Getter = true
+		ct.HasMod = true
 	case "trusted":
 		ct.Extern = true
 	case "props":
